@@ -56,7 +56,7 @@ def run_property(prop: str, tier: str, repo: str | None = None, write: bool = Tr
         results = []
         errors: list[str] = []
         for fn in rules:
-            if only_rule and not fn.__name__.lower().startswith(only_rule.lower().replace(".", "_")):
+            if only_rule and not any(fn.__name__.lower().startswith(o.strip().lower().replace(".", "_")) for o in only_rule.split(",")):
                 continue
             # a rule whose anchor vanished is an analysis error; the remaining rules still run, so that a change which both
             # removes an anchor and violates another rule is reported as the violation it is
